@@ -122,6 +122,42 @@ def check_case(ctx, spec, root, tag, model_out):
     b.cleanup_module()
 
 
+def canon_nm(ts):
+    """comparable form of a name-mode chain: object ids renumbered by first occurrence"""
+    ren, by_name, out = {}, {t['full']: t['obj'] for t in ts}, []
+    for t in ts:
+        ins = [[k, {'obj': by_name.get(v['task'], -1)} if 'task' in v else v] for k, v in t['inputs']]
+        out.append({**{k: t[k] for k in ('full', 'cid', 'slug', 'ns', 'params', 'key')}, 'obj': t['obj'], 'inputs': ins})
+    for u in out:
+        u['obj'] = ren.setdefault(u['obj'], len(ren))
+        for k, v in u['inputs']:
+            if 'obj' in v:
+                v['obj'] = ren.setdefault(v['obj'], len(ren))
+    return out
+
+
+def check_name_mode(ctx, spec, root, tag, model_out):
+    """`Chain(config, parameter_mode=False)` vs the Lean model `BuildNM.build`: tasks, the objects behind them (one object per
+    (task name, config file) — a pipeline mounted twice is ONE set of objects), their parameters, inputs, the config name as
+    storage key; dependency cycles and the other construction errors"""
+    b = pl.materialize(spec, root / tag, modname=spec['module'])
+    impl = builder.build_impl(spec, b, root / (tag + '_data'), parameter_mode=False)
+    case = {'module': spec['module'], 'main': spec['main'], 'mode': 'name', 'malformed': spec.get('malformed'), 'spec': spec}
+    ctx.case({k: v for k, v in case.items() if k != 'spec'}, nontrivial='ok' in impl and len(impl['ok']) >= 2)
+    ctx.count('name-mode:built' if 'ok' in impl else f"name-mode:error:{impl['error']}")
+    if ('ok' in impl) != ('ok' in model_out):
+        ctx.diverge('builder-name-mode:error-vs-chain', case, impl.get('error', 'chain'), model_out.get('error', 'chain'))
+    elif 'error' in impl:
+        if impl['error'] != model_out['error'] and not (impl['error'].startswith('other') or model_out['error'] in ('not_found', 'ambiguous')):
+            ctx.diverge('builder-name-mode:error-kind', case, impl['error'], model_out['error'])
+    else:
+        a, m = canon_nm(impl['ok']), canon_nm(model_out['ok'])
+        if a != m:
+            k = next((i for i, (x, y) in enumerate(zip(a, m)) if x != y), min(len(a), len(m)))
+            ctx.diverge('builder-name-mode:tasks', case, a[k] if k < len(a) else None, m[k] if k < len(m) else None)
+    b.cleanup_module()
+
+
 def run(ctx):
     quiet()
     root = ctx.tmpdir()
@@ -143,6 +179,11 @@ def run(ctx):
     outs = ctx.model.many(reqs)
     for i, (spec, mo) in enumerate(zip(specs, outs)):
         check_case(ctx, spec, root, f'c{i}', mo)
+    # ---- the same specs in name mode (every second one)
+    nm = [(i, spec) for i, spec in enumerate(specs) if i % 2 == 0]
+    nouts = ctx.model.many([{**reqs[i], 'op': 'build_nm'} for i, _ in nm])
+    for (i, spec), mo in zip(nm, nouts):
+        check_name_mode(ctx, spec, root, f'n{i}', mo)
 
 
 def search(ctx, divergences):
